@@ -51,6 +51,8 @@ func c04PriorSlots(c *Ctx) {
 				key := fi.Name + "/writes " + p
 				if why, fine := ok2[fi.Name]; fine {
 					c.ok("C04.e", key, as.Pos(), "written by the %s", why)
+				} else if root, why := c04OnlyHelperOf(c, fi, ok2); root != "" {
+					c.ok("C04.e", key, as.Pos(), "written by the %s (in an unexported helper called only from %s)", why, root)
 				} else {
 					c.bad("C04.e", key, as.Pos(), "%s holds the value the terminal had before start-up and is written back on exit; writing it in %s makes Close/Suspend restore the application's own value instead of the prior one", p, fi.Name)
 				}
@@ -144,4 +146,36 @@ func c07FromCursorPosition(info *types.Info, fi *FuncInfo, name string) bool {
 		return true
 	})
 	return ok
+}
+
+// c04OnlyHelperOf: fi is an unexported function that is never used as a value and whose every static call site
+// lies in one of the allowed roots or in another such helper (so it runs only as part of the root's path).
+func c04OnlyHelperOf(c *Ctx, fi *FuncInfo, roots map[string]string) (string, string) {
+	seen := map[*FuncInfo]bool{}
+	var root, why string
+	var ok func(f *FuncInfo, depth int) bool
+	ok = func(f *FuncInfo, depth int) bool {
+		if w, is := roots[f.Name]; is {
+			root, why = f.Name, w
+			return true
+		}
+		if depth > 4 || seen[f] || f.Obj.Exported() {
+			return false
+		}
+		seen[f] = true
+		callers, asValue := c.P.CallersOf(f)
+		if asValue || len(callers) == 0 {
+			return false
+		}
+		for _, cf := range callers {
+			if !ok(cf, depth+1) {
+				return false
+			}
+		}
+		return true
+	}
+	if ok(fi, 0) {
+		return root, why
+	}
+	return "", ""
 }
